@@ -129,9 +129,13 @@ func decodeInlineContent(d *xml.Decoder, styleName string) ([]spanXML, error) {
 // compressed content.xml, ended the process with a stack overflow.
 const maxInlineDepth = 10000
 
+// errInlineTooDeep is the error of a paragraph nested beyond maxInlineDepth. The
+// body loop of the reader tells it apart from other decoding errors: it ends Open.
+var errInlineTooDeep = fmt.Errorf("inline content nested deeper than %d levels", maxInlineDepth)
+
 func decodeInlineContentAt(d *xml.Decoder, styleName string, depth int) ([]spanXML, error) {
 	if depth > maxInlineDepth {
-		return nil, fmt.Errorf("inline content nested deeper than %d levels", maxInlineDepth)
+		return nil, errInlineTooDeep
 	}
 	var spans []spanXML
 	for {
